@@ -21,7 +21,7 @@ func init() {
 		},
 	}
 	suites["cluster"] = suite{
-		rule: "episodes on a real clusterClient over scripted nodes: topology (1-5 shards, replicas, holes, CLUSTER SLOTS v7 / CLUSTER SHARDS v8, plain / SendToReplicas modes, MaxMovedRedirections 0-3, retry budget 0-2), table/rtable/conns dumps, _pickMulti/_pickMultiCache differentials, Do/DoCache/DoMulti/DoMultiCache with injected MOVED/ASK/TRYAGAIN/LOADING/CLUSTERDOWN/transport/ERR/nil replies on chosen (node, command) pairs (chains up to depth 4, unknown and self targets), MULTI…EXEC blocks, topology changes + refresh, hole-fill episodes (the cached table lacks a shard the cluster serves: the batch's first pick fails, refreshes and picks again, then a member / block member / EXEC is redirected); '!trace' lines evaluate the specification predicates on the real per-node logs; non-trivial = op whose script had at least one consumed injection or a batch split over 2+ nodes",
+		rule: "episodes on a real clusterClient over scripted nodes: topology (1-5 shards, replicas, holes, CLUSTER SLOTS v7 / CLUSTER SHARDS v8, plain / SendToReplicas modes, MaxMovedRedirections 0-3, retry budget 0-2), table/rtable/conns dumps, _pickMulti/_pickMultiCache differentials, Do/DoCache/DoMulti/DoMultiCache with injected MOVED/ASK/TRYAGAIN/LOADING/CLUSTERDOWN/transport/ERR/nil replies on chosen (node, command) pairs (chains up to depth 4, unknown and self targets), MULTI…EXEC blocks, topology changes + refresh, abandoned batches (DoMulti/DoMultiCache with a done context: the connection answers the queued commands with the context error, keeps the caller's slice and compares its argv with what it was given when it consumes it after other callers' batches — 'consume' / '!consume'), hole-fill episodes (the cached table lacks a shard the cluster serves: the batch's first pick fails, refreshes and picks again, then a member / block member / EXEC is redirected); '!trace' lines evaluate the specification predicates on the real per-node logs; non-trivial = op whose script had at least one consumed injection or a batch split over 2+ nodes",
 		run:  runCluster,
 		replay: func(c *Ctx, lines []string) {
 			runEpisodeLines(c, lines)
@@ -284,7 +284,18 @@ func (e *episode) exec(line string) {
 			}
 			e.sticky = st
 		}
-	case "multi", "mcache":
+	case "consume", "!consume":
+		v, detail := e.s.consume()
+		e.emit(line, v, true)
+		if v != "intact" && w[0] == "consume" {
+			e.fails = append(e.fails, [3]string{"cluster:batch-recycled-before-written", line, detail})
+		}
+	case "multi", "mcache", "multix", "mcachex":
+		if strings.HasSuffix(w[0], "x") { // the caller's context is done: the connection answers its queued commands with ctx.Err()
+			cctx, cancel := context.WithCancel(ctx)
+			cancel()
+			ctx = cctx
+		}
 		semi := indexOf(w, ";")
 		var specs []cmdSpec
 		for _, cw := range w[1:semi] {
@@ -299,7 +310,7 @@ func (e *episode) exec(line string) {
 		e.register(specs, built)
 		var rs []rueidis.RedisResult
 		ans := recoverStr(func() string {
-			if w[0] == "mcache" {
+			if strings.HasPrefix(w[0], "mcache") {
 				cts := make([]rueidis.CacheableTTL, len(built))
 				for i, b := range built {
 					cts[i] = rueidis.CT(rueidis.Cacheable(b), time.Minute)
@@ -1236,6 +1247,116 @@ func genSticky(c *Ctx) []string {
 	return lines
 }
 
+// genAbandon: a batch whose caller's context ends while (part of) it is queued on a connection and not yet
+// written: the connection answers those commands with the context error and keeps the caller's slice. Other
+// callers' batches follow (a pooled per-connection batch would be reused by them); then the connection consumes
+// what it holds.
+func genAbandon(c *Ctx) []string {
+	ver := 7 + c.Rng.IntN(2)
+	t := genClusterTopo(c, false)
+	init := t.addrs[0]
+	lines := []string{
+		fmt.Sprintf("reset ver=%d tls=0 mode=plain maxredir=0 retry=%d budget=%d init=%s", ver, c.Rng.IntN(2), c.Rng.IntN(2), hx(init)),
+		"serve " + t.msg(ver, true).String(),
+		"new",
+	}
+	batch := func(abandon bool) string {
+		var specs []cmdSpec
+		var is []inj
+		cache := c.Rng.IntN(5) == 0
+		tx := !cache && c.Rng.IntN(4) == 0
+		if tx {
+			slot := t.interestingSlot(c)
+			for t.ownerOf(slot) == "" {
+				slot = t.interestingSlot(c)
+			}
+			for i, sh := range []string{"p", "M", "m", "m", "E"} {
+				switch sh {
+				case "M":
+					specs = append(specs, cmdSpec{i, 16384, "M"})
+				case "E":
+					specs = append(specs, cmdSpec{i, 16384, "E"})
+				default:
+					specs = append(specs, cmdSpec{i, slot, []string{"-", "t", "r"}[c.Rng.IntN(3)]})
+				}
+			}
+		} else {
+			for i, n := 0, 1+c.Rng.IntN(6); i < n; i++ {
+				slot := t.interestingSlot(c)
+				for t.ownerOf(slot) == "" {
+					slot = t.interestingSlot(c)
+				}
+				fl := []string{"-", "t", "r"}[c.Rng.IntN(3)]
+				if cache {
+					fl = "r"
+				}
+				specs = append(specs, cmdSpec{i, slot, fl})
+			}
+		}
+		if abandon {
+			// every command queued on one (or every) node stays unwritten; sometimes only the tail of a sub-batch
+			victimNode := ""
+			if c.Rng.IntN(3) != 0 {
+				s0 := specs[c.Rng.IntN(len(specs))]
+				if s0.slot != 16384 {
+					victimNode = t.ownerOf(s0.slot)
+				} else {
+					victimNode = t.ownerOf(specs[0].slot)
+				}
+			}
+			tail := c.Rng.IntN(4) == 0
+			seen := 0
+			for _, sp := range specs {
+				owner := t.ownerOf(sp.slot)
+				if sp.slot == 16384 {
+					owner = t.ownerOf(specs[0].slot)
+				}
+				if victimNode != "" && owner != victimNode {
+					continue
+				}
+				seen++
+				if tail && seen == 1 {
+					continue
+				}
+				is = append(is, inj{addr: owner, id: sp.id, kind: "ctx"})
+			}
+			if len(is) == 0 {
+				sp := specs[0]
+				is = append(is, inj{addr: t.ownerOf(sp.slot), id: sp.id, kind: "ctx"})
+			}
+		} else if c.Rng.IntN(3) == 0 {
+			sp := specs[c.Rng.IntN(len(specs))]
+			if sp.slot != 16384 {
+				is = append(is, genChain(c, t, sp.id, t.ownerOf(sp.slot), 1, false)...)
+			}
+		}
+		ss := make([]string, len(specs))
+		for i, sp := range specs {
+			ss[i] = sp.String()
+		}
+		verb := "multi"
+		if cache {
+			verb = "mcache"
+		}
+		if abandon {
+			verb += "x"
+		}
+		return fmt.Sprintf("%s %s ; %s", verb, strings.Join(ss, " "), joinInj(is))
+	}
+	for i, n := 0, c.Rng.IntN(2); i < n; i++ {
+		lines = append(lines, batch(false))
+	}
+	lines = append(lines, batch(true), "consume", "!consume")
+	for i, n := 0, 1+c.Rng.IntN(3); i < n; i++ {
+		lines = append(lines, batch(false))
+	}
+	lines = append(lines, "consume", "!consume")
+	for i := range lines {
+		lines[i] = strings.TrimSpace(lines[i])
+	}
+	return lines
+}
+
 func runCluster(c *Ctx) {
 	for i := 0; i < c.N; i++ {
 		runEpisodeLines(c, genEpisode(c, i, "batch"))
@@ -1247,6 +1368,9 @@ func runCluster(c *Ctx) {
 		}
 		if i%10 == 3 {
 			runEpisodeLines(c, genSticky(c))
+		}
+		if i%4 == 2 { // abandoned batches: queued but unwritten when the caller's context ends
+			runEpisodeLines(c, genAbandon(c))
 		}
 	}
 }
